@@ -153,6 +153,9 @@ package p9p
 // data-sized allocations are linear in the input (verified for codec9p: (codec9p).Unmarshal#any, #dir)
 //@ ensures dynalloc() - old(dynalloc()) <= 4 * len(data) && dynalloc() >= old(dynalloc())
 //@ ensures !typeis(err, overflowErr)
+// a bare stat record: decoding the manual's layout of a representable Dir yields that Dir (verified for codec9p field by
+// field as (codec9p).Unmarshal#dirrt; the struct equality is their conjunction)
+//@ ensures dir_roundtrip: typeis(v, *Dir) ==> (forall d0 Dir :: {encDirF(d0)} old(bytes(data)) == encDirF(d0) && repDir(d0) ==> err == nil && *v.(*Dir) == d0)
 //@ ensures typeis(v, *Fcall) ==> (err == nil <==> decOk(bytes(data)))
 //@ ensures typeis(v, *Fcall) && err == nil ==> *v.(*Fcall) == decFcall(bytes(data))
 //@ ensures typeis(v, *Fcall) ==> forall q *Fcall :: q != v.(*Fcall) ==> q.Type == old(q.Type) && q.Tag == old(q.Tag) && q.Message == old(q.Message)
@@ -299,9 +302,18 @@ package p9p
 //@ macro ONLYISS(e) = forall k int :: {gk(issued, k)} k != key(e) ==> gk(issued, k) == old(gk(issued, k))
 //@ macro SAMEISS = forall k int :: {gk(issued, k)} gk(issued, k) == old(gk(issued, k))
 
+// isdir(e): whether e's qid carries the directory bit - assumed stable over the life of an entry (environment)
+//@ ghost isdir bool
 //@ iface Dirent.Qid
 //@ modifies nothing
 //@ requires not_released: !released(self)
+//@ ensures dirbit: (result.Type >= 128) == isdir(self)
+
+//@ func IsDir
+//@ inline
+//@ property C17
+//@ requires d != nil && !released(d)
+//@ ensures result == isdir(d)
 
 //@ iface Dirent.Stat
 //@ modifies alloc
@@ -462,9 +474,11 @@ package p9p
 //@ ensures once: old(ref.File) != nil ==> err != nil
 //@ ensures opened: err == nil ==> old(ref.File) == nil && ref.File != nil && ref.Mode == mode
 //@ ensures frame: ref.Ent == old(ref.Ent) && (forall q *SFid :: {q.File} q != ref ==> q.File == old(q.File) && q.Mode == old(q.Mode))
+// a directory is served by a fresh Readdir (offset 0, empty look-ahead) with the 9P2000 codec - never by the entry's own Open
+//@ ensures dir_listing: err == nil && isdir(ref.Ent) ==> typeis(ref.File, *Readdir) && ref.File.(*Readdir).offset == 0 && ref.File.(*Readdir).buf == nil && typeis(ref.File.(*Readdir).codec, codec9p)
 
 //@ func (*session).Open
-//@ property C08 C13 C14
+//@ property C08 C13 C14 C17
 //@ requires TABLE && QUIET
 //@ ensures others: OTHERS_SAME(fid) && TABLE && SAMEREL
 //@ ensures unbound_fails: !old(BOUND(fid)) || fid == NOFID ==> err != nil && TABLE_SAME
@@ -472,6 +486,7 @@ package p9p
 //@ ensures once: old(BOUND(fid)) && old(R(fid).File) != nil ==> err != nil
 //@ ensures opened: err == nil ==> old(BOUND(fid)) && old(R(fid).File) == nil && smval(REFS, fid) == old(smval(REFS, fid)) && R(fid).Ent == old(R(fid).Ent) && R(fid).File != nil && R(fid).Mode == mode
 //@ ensures locks: UNLOCKED
+//@ ensures dir_listing: err == nil && isdir(R(fid).Ent) ==> typeis(R(fid).File, *Readdir) && R(fid).File.(*Readdir).offset == 0 && R(fid).File.(*Readdir).buf == nil && typeis(R(fid).File.(*Readdir).codec, codec9p)
 
 //@ macro NEWENT(e) = (e != nil && !was(issued, e) && issued(e) && !released(e))
 
@@ -507,13 +522,15 @@ package p9p
 //@ ensures locks: UNLOCKED
 
 //@ func (*session).Create
-//@ property C08 C13 C14
+//@ property C08 C13 C14 C17
 //@ requires TABLE && QUIET
 //@ ensures inv: TABLE
 //@ ensures unbound_parent: !old(BOUND(parent)) || parent == NOFID ==> err != nil
 //@ ensures failed: err != nil ==> (TABLE_SAME && SAMEREL) || (old(BOUND(parent)) && !smhas(REFS, parent) && OTHERS_SAME(parent) && released(old(R(parent).Ent)) && (forall k int :: {gk(released, k)} gk(released, k) != old(gk(released, k)) ==> k == key(old(R(parent).Ent)) || !was(issued, k)))
 //@ ensures created: err == nil ==> old(BOUND(parent)) && BOUND(parent) && smval(REFS, parent) == old(smval(REFS, parent)) && NEWENT(R(parent).Ent) && R(parent).File != nil && R(parent).Mode == mode && released(old(R(parent).Ent)) && ONLYREL(old(R(parent).Ent)) && OTHERS_SAME(parent)
 //@ ensures locks: UNLOCKED
+// a created directory is served by a fresh Readdir as well (C17)
+//@ ensures dir_listing: err == nil && isdir(R(parent).Ent) ==> typeis(R(parent).File, *Readdir) && R(parent).File.(*Readdir).offset == 0 && R(parent).File.(*Readdir).buf == nil && typeis(R(parent).File.(*Readdir).codec, codec9p)
 
 //@ func (*session).Stop
 //@ property C08 C11 C13 C14
@@ -1436,6 +1453,41 @@ package p9p
 // them), so for Rstat/Twstat the input need not be the canonical layout of the result; for all other kinds it is:
 //@ ensures consumed_layout: err == nil && !STAT ==> blen(layout(V)) <= len(data) && btake(old(bytes(data)), blen(layout(V))) == layout(V)
 
+// The stat record in right-nested form (what a reader peels off field by field); equal to encDir by associativity.
+//@ pure encDirR(d Dir) Bytes = bcat(le2(dirLen(d)), bcat(le2(d.Type), bcat(le4(d.Dev), bcat(le1(d.Qid.Type), bcat(le4(d.Qid.Version), bcat(le8(d.Qid.Path), bcat(le4(d.Mode), bcat(le4(unix(d.AccessTime)), bcat(le4(unix(d.ModTime)), bcat(le8(d.Length), bcat(le2(len(d.Name)), bcat(sbytes(d.Name), bcat(le2(len(d.UID)), bcat(sbytes(d.UID), bcat(le2(len(d.GID)), bcat(sbytes(d.GID), bcat(le2(len(d.MUID)), bcat(sbytes(d.MUID), bempty))))))))))))))))))
+//@ pure encDirF(d Dir) Bytes
+//@ axiom [dirdef] encDirF_def: forall d Dir :: {encDirF(d)} encDirF(d) == encDir(d)
+//@ lemma [dirdefr from dirdef bytes noassoc] [C17] encDirF_len: forall d Dir :: {encDirF(d)} blen(encDirF(d)) == dirLen(d) + 2
+//@ lemma [emptycat from bytes noassoc] [C17] ec_l: forall a Bytes :: {bcat(bempty, a)} bcat(bempty, a) == a
+//@ lemma [emptycat from bytes noassoc] [C17] ec_r: forall a Bytes :: {bcat(a, bempty)} bcat(a, bempty) == a
+//@ lemma [dirdefr from dirdef assoc_r emptycat nobytes] [C17] encDirF_right: forall d Dir :: {encDirF(d)} encDirF(d) == encDirR(d)
+
+// Round trip for a bare stat record (what DecodeDir hands to the codec): decoding the manual's layout of any representable
+// Dir d0 (a logical variable) yields d0.
+//@ func (codec9p).Unmarshal#dirrt
+//@ timeout 60
+//@ property C17
+//@ use bytes noassoc dirdefr
+//@ prune
+//@ logical d0 Dir
+//@ dyn v : *Dir
+//@ requires v.(*Dir) != nil
+//@ requires bytes(data) == encDirF(d0) && repDir(d0)
+//@ ensures accepted: err == nil
+//@ ensures roundtrip_Type: (*v.(*Dir)).Type == d0.Type
+//@ ensures roundtrip_Dev: (*v.(*Dir)).Dev == d0.Dev
+//@ ensures roundtrip_QidType: (*v.(*Dir)).Qid.Type == d0.Qid.Type
+//@ ensures roundtrip_QidVersion: (*v.(*Dir)).Qid.Version == d0.Qid.Version
+//@ ensures roundtrip_QidPath: (*v.(*Dir)).Qid.Path == d0.Qid.Path
+//@ ensures roundtrip_Mode: (*v.(*Dir)).Mode == d0.Mode
+//@ ensures roundtrip_AccessTime: (*v.(*Dir)).AccessTime == d0.AccessTime
+//@ ensures roundtrip_ModTime: (*v.(*Dir)).ModTime == d0.ModTime
+//@ ensures roundtrip_Length: (*v.(*Dir)).Length == d0.Length
+//@ ensures roundtrip_Name: (*v.(*Dir)).Name == d0.Name
+//@ ensures roundtrip_UID: (*v.(*Dir)).UID == d0.UID
+//@ ensures roundtrip_GID: (*v.(*Dir)).GID == d0.GID
+//@ ensures roundtrip_MUID: (*v.(*Dir)).MUID == d0.MUID
+
 // Unmarshal into a *Dir (the target DecodeDir uses): no panic on any input, allocation linear in the input.
 //@ func (codec9p).Unmarshal#dir
 //@ timeout 60
@@ -1452,6 +1504,35 @@ package p9p
 //@ use bytes
 //@ requires codec != nil && d != nil
 //@ ensures proportionate: dynalloc() - old(dynalloc()) <= 5 * 65537
+
+// Client side of a directory read: when the reader holds the manual's layout of a representable entry d0 followed by
+// anything, DecodeDir consumes exactly that record and yields d0; at the end of the input it reports io.EOF.
+//@ func DecodeDir#rt
+//@ timeout 60
+//@ property C17
+//@ use bytes noassoc assoc_r dirdefr wire winframe
+//@ prune
+//@ logical d0 Dir
+//@ logical rest Bytes
+//@ requires codec != nil && d != nil && typeis(rd, *bytes.Reader)
+//@ requires rem(rd) == bcat(encDirF(d0), rest) && repDir(d0)
+//@ at "if _, err := io.ReadFull(rd, p[2:]); err != nil {" assert size_first: btake(bytes(p), 2) == le2(ll) && ll == dirLen(d0)
+//@ at "return codec.Unmarshal(p, d)" assert split: bytes(p) == bcat(btake(bytes(p), 2), bdrop(bytes(p), 2))
+//@ at "return codec.Unmarshal(p, d)" assert head: btake(bytes(p), 2) == le2(dirLen(d0))
+//@ at "return codec.Unmarshal(p, d)" assert encsplit: encDirF(d0) == bcat(btake(encDirF(d0), 2), bdrop(encDirF(d0), 2)) && btake(encDirF(d0), 2) == le2(dirLen(d0))
+//@ at "return codec.Unmarshal(p, d)" assert tail: bdrop(bytes(p), 2) == bdrop(encDirF(d0), 2)
+//@ at "return codec.Unmarshal(p, d)" assert whole_record: bytes(p) == encDirF(d0)
+//@ ensures consumed: rem(rd) == rest
+//@ ensures accepted: err == nil
+//@ ensures decoded: *d == d0
+
+//@ func DecodeDir#eof
+//@ property C17
+//@ use bytes
+//@ prune
+//@ requires codec != nil && d != nil && typeis(rd, *bytes.Reader)
+//@ requires rem(rd) == bempty
+//@ ensures at_end: err == io.EOF
 
 // ---------------------------------------------------------------- readdir.go (C17)
 //
